@@ -54,13 +54,13 @@ var pqVals = []int64{-1000, -999, -100, -8, -7, -1, 0, 1, 7, 8, 15, 16, 100, 999
 var pqTimes []time.Time
 
 type pqModel struct {
-	s map[uint64]map[uint64]bool              // set field: row -> cols
-	m map[uint64]uint64                       // mutex field: col -> row
+	s    map[uint64]map[uint64]bool // set field: row -> cols
+	m    map[uint64]uint64          // mutex field: col -> row
 	mHas map[uint64]bool
-	v map[uint64]int64                        // int field: col -> value
+	v    map[uint64]int64 // int field: col -> value
 	vHas map[uint64]bool
-	t map[uint64]map[uint64]map[time.Time]bool // time field: row -> col -> timestamps
-	tStd map[uint64]map[uint64]bool            // time field standard view
+	t    map[uint64]map[uint64]map[time.Time]bool // time field: row -> col -> timestamps
+	tStd map[uint64]map[uint64]bool               // time field standard view
 }
 
 func newPqModel() *pqModel {
@@ -649,6 +649,9 @@ func (r *pqRun) checkAll(m *pqModel, rng *rand.Rand) {
 	// ---- time ranges (C18, C19) ----
 	for i := 0; i < 8; i++ {
 		a, b := pqTimes[rng.Intn(len(pqTimes))], pqTimes[rng.Intn(len(pqTimes))]
+		if i == 0 {
+			a = pqTimes[0] // one range always reaches back to the earliest (pre-1970) stamp
+		}
 		if b.Before(a) {
 			a, b = b, a
 		}
@@ -662,7 +665,7 @@ func (r *pqRun) checkAll(m *pqModel, rng *rand.Rand) {
 					}
 				}
 			}
-			r.expectCols([]string{"C18", "C19"}, "timerange", fmt.Sprintf("Row(t=%d, from=%s, to=%s)", row, pqTS(a), pqTS(b)), sortedCols(want))
+			r.expectCols([]string{"C18", "C19", "C28"}, "timerange", fmt.Sprintf("Row(t=%d, from=%s, to=%s)", row, pqTS(a), pqTS(b)), sortedCols(want))
 		}
 	}
 	for _, row := range pqRows[:3] {
@@ -705,6 +708,46 @@ func (r *pqRun) round(rng *rand.Rand, writes int) {
 			m.tStd[tr][c] = true
 		}
 	}
+	timeWrite := func(c, row uint64, ts time.Time, viaImport bool) {
+		if viaImport {
+			// the bulk import path with a time stamp (C28: same answers as Set);
+			// like the real client, the request goes to every owner of the shard
+			r.seq = append(r.seq, fmt.Sprintf("Import(col %d, t=%d, %s)", c, row, pqTS(ts)))
+			for _, cl := range []test.Cluster{r.c1, r.c3} {
+				if cl == nil {
+					continue
+				}
+				accepted := 0
+				var lastErr error
+				for _, node := range cl {
+					req := &pilosa.ImportRequest{Index: "i", Field: "t", Shard: c / pqSW, RowIDs: []uint64{row}, ColumnIDs: []uint64{c}, Timestamps: []int64{ts.UnixNano()}}
+					err := node.API.Import(context.Background(), req)
+					if err == nil {
+						accepted++
+					} else if !strings.Contains(err.Error(), "shard ownership") {
+						lastErr = err
+					}
+				}
+				if accepted == 0 || lastErr != nil {
+					r.fail([]string{"C28"}, "import-error", fmt.Sprintf("Import(col %d, t=%d, %s): accepted by %d nodes, error %v", c, row, pqTS(ts), accepted, lastErr))
+				}
+			}
+		} else {
+			r.write(fmt.Sprintf("Set(%d, t=%d, %s)", c, row, pqTS(ts)))
+		}
+		if m.t[row] == nil {
+			m.t[row] = map[uint64]map[time.Time]bool{}
+			m.tStd[row] = map[uint64]bool{}
+		}
+		if m.t[row][c] == nil {
+			m.t[row][c] = map[time.Time]bool{}
+		}
+		m.t[row][c][ts] = true
+		m.tStd[row][c] = true
+	}
+	// every round starts with one bulk import of a time stamp before 1970 (negative
+	// UnixNano), the corner of C28 a random draw reaches only now and then
+	timeWrite(pqCols[rng.Intn(len(pqCols))], pqRows[rng.Intn(3)], pqTimes[0], true)
 	for w := 0; w < writes; w++ {
 		c := pqCols[rng.Intn(len(pqCols))]
 		switch rng.Intn(10) {
@@ -755,18 +798,7 @@ func (r *pqRun) round(rng *rand.Rand, writes int) {
 			}
 			m.v[c], m.vHas[c] = v, true
 		case 6, 7:
-			row := pqRows[rng.Intn(3)]
-			ts := pqTimes[rng.Intn(len(pqTimes))]
-			r.write(fmt.Sprintf("Set(%d, t=%d, %s)", c, row, pqTS(ts)))
-			if m.t[row] == nil {
-				m.t[row] = map[uint64]map[time.Time]bool{}
-				m.tStd[row] = map[uint64]bool{}
-			}
-			if m.t[row][c] == nil {
-				m.t[row][c] = map[time.Time]bool{}
-			}
-			m.t[row][c][ts] = true
-			m.tStd[row][c] = true
+			timeWrite(c, pqRows[rng.Intn(3)], pqTimes[rng.Intn(len(pqTimes))], rng.Intn(3) == 0)
 		case 8, 9:
 			row := pqRows[rng.Intn(3)]
 			// prefer a bit that is set (a Clear of an absent bit exercises little)
@@ -808,7 +840,7 @@ func TestRcheckPQL(t *testing.T) {
 	if os.Getenv("VERIF_TIER") == "thorough" {
 		rounds = 30
 	}
-	for _, y := range []int{2017, 2018} {
+	for _, y := range []int{1969, 2017, 2018} { // 1969: time stamps before the Unix epoch
 		for _, mo := range []time.Month{time.January, time.March} {
 			for _, d := range []int{1, 6, 7, 31} {
 				for _, h := range []int{0, 13} {
